@@ -496,12 +496,20 @@ impl M {
     /// One `step_in`, optionally holding the keyboard / display buffer locks.
     /// Returns the result name ("panic" if the code panicked).
     pub fn step(&mut self, out: &mut Out, lock_k: bool, lock_d: bool) -> &'static str {
+        self.step_locks(out, lock_k as u8, lock_d as u8)
+    }
+    /// As `step`; lock kinds: 0 = not held, 1 = another party holds the write guard, 2 = another
+    /// party holds a read guard (a reader of the buffer, e.g. a front end displaying it).
+    pub fn step_locks(&mut self, out: &mut Out, lk: u8, ld: u8) -> &'static str {
         if self.dead { return "panic"; }
+        let (lock_k, lock_d) = (lk != 0, ld != 0);
         let kb = self.kbd.clone();
         let ds = self.disp.clone();
         let r = {
-            let _gk = if lock_k { Some(kb.write().unwrap()) } else { None };
-            let _gd = if lock_d { Some(ds.write().unwrap()) } else { None };
+            let _gkw = if lk == 1 { Some(kb.write().unwrap()) } else { None };
+            let _gkr = if lk == 2 { Some(kb.read().unwrap()) } else { None };
+            let _gdw = if ld == 1 { Some(ds.write().unwrap()) } else { None };
+            let _gdr = if ld == 2 { Some(ds.read().unwrap()) } else { None };
             js::guard(|| self.sim.step_in())
         };
         match r {
